@@ -22,11 +22,11 @@ func init() { checks["C14"] = c14{} }
 
 func (c14) Level() string { return "fault_enumeration" }
 
-const c14QuickVec, c14ThoroughVec = 8, 216
+const c14QuickVec, c14ThoroughVec = 24, 216
 
 func (c14) NumCases(tier string) int {
 	if tier == "thorough" {
-		return 300 * c14ThoroughVec
+		return 600 * c14ThoroughVec
 	}
 	return 150 * c14QuickVec
 }
@@ -257,7 +257,7 @@ func (x *c14Run) abs(rel string) string { return filepath.Join(x.rootDir, rel) }
 func c14Setup(cs *C14Case, scratch string, tag string) (*c14Run, Res) {
 	wrapIncludes = true
 	x := &c14Run{cs: cs, onDisk: map[string]string{}, cache: map[string]string{}, special: map[string]int{}}
-	x.dir = filepath.Join(scratch, "fsroot", tag)
+	x.dir = filepath.Join(scratch, "fsroot", fmt.Sprintf("p%d", os.Getpid()), tag)
 	os.RemoveAll(x.dir)
 	x.rootAbs = filepath.Join(x.dir, cs.RootRel)
 	x.rootDir = filepath.Dir(x.rootAbs)
@@ -628,7 +628,7 @@ func c14Find(c *Ctx, cs *C14Case, scratch, tag string, out *CaseOut, wantSig str
 		if pres.Panic != "" {
 			out.Discarded = true
 		}
-		os.RemoveAll(filepath.Join(scratch, "fsroot", tag))
+		os.RemoveAll(filepath.Join(scratch, "fsroot", fmt.Sprintf("p%d", os.Getpid()), tag))
 		return nil
 	}
 	defer x.cleanup()
@@ -799,6 +799,9 @@ func c14Violation(c *Ctx, cs *C14Case, f c14Fail, idx int) *Violation {
 	orig := *cs
 	orig.FaultJ, orig.FaultErrno, orig.AtStep = f.j, f.errno, f.step
 	ob, _ := json.Marshal(orig)
+	if !c.mayMinimise(f.sig) {
+		return &Violation{Property: c.Prop, Clause: f.clause, Detail: f.detail, Signature: f.sig, Seed: c.Seed, Index: idx, Case: ob}
+	}
 	deadline := time.Now().Add(20 * time.Second)
 	cur := orig
 	n := 0
